@@ -301,7 +301,9 @@ def render_fn(fs, out, unit, log):
     def c(off):  # byte offset in file -> char offset in text
         return len(src[s0:off].decode("utf-8"))
 
-    fn_origin = {"type": "src", "file": relfile, "fn": fs.path, "unit": unit}
+    # `alias=X`: the same real function extracted a second time (under other hypotheses); obligations are named `<path>@X`
+    flabel = fs.path + ("@" + fs.opts["alias"] if fs.opts.get("alias") else "")
+    fn_origin = {"type": "src", "file": relfile, "fn": flabel, "unit": unit}
     edits = []  # (pos, del_len, text, origin, prio)
 
     def ins(pos, t, origin=None, dl=0, prio=0):
@@ -314,8 +316,8 @@ def render_fn(fs, out, unit, log):
     retname = fs.opts.get("ret")
     if retname and "ret" in rec:
         a, b = c(rec["ret"][0]), c(rec["ret"][1])
-        ins(a, f"({retname}: ", {"type": "annot", "fn": fs.path, "unit": unit, "what": "ret"})
-        ins(b, ")", {"type": "annot", "fn": fs.path, "unit": unit, "what": "ret"}, prio=-1)
+        ins(a, f"({retname}: ", {"type": "annot", "fn": flabel, "unit": unit, "what": "ret"})
+        ins(b, ")", {"type": "annot", "fn": flabel, "unit": unit, "what": "ret"}, prio=-1)
 
     # R2 pattern parameters
     r2_lets = []
@@ -324,25 +326,31 @@ def render_fn(fs, out, unit, log):
             a, b = c(p["pat"][0]), c(p["pat"][1])
             pat = text[a:b]
             nm = f"__arg{k}"
-            ins(a, nm, {"type": "rewrite", "rule": "R2", "fn": fs.path, "unit": unit}, dl=b - a)
+            ins(a, nm, {"type": "rewrite", "rule": "R2", "fn": flabel, "unit": unit}, dl=b - a)
             r2_lets.append(f" let {pat} = {nm};")
-            log["rewrites"].append({"rule": "R2", "fn": fs.path, "from": pat, "to": nm})
+            log["rewrites"].append({"rule": "R2", "fn": flabel, "from": pat, "to": nm})
 
     # R2c: closures with pattern parameters `|PAT| BODY` -> `|__cK| { let PAT = __cK; BODY }` (Verus accepts only variables);
     # `//@@ closure K` parts put a Verus closure signature (`-> (r: T) requires .. ensures ..`) between `|params|` and the body
     closure_specs = {int(arg.split()[0]): (ptxt, tline) for kind, arg, ptxt, tline in fs.parts if kind == "closure"}
     for ci, cl in enumerate(rec.get("closures", [])):
-        ro = {"type": "rewrite", "rule": "R2c", "fn": fs.path, "unit": unit}
+        ro = {"type": "rewrite", "rule": "R2c", "fn": flabel, "unit": unit}
         lets = ""
         for pj, (a0, b0) in enumerate(cl["pats"]):
             a, b = c(a0), c(b0)
             nm = f"__c{ci}_{pj}"
             ins(a, nm, ro, dl=b - a)
-            lets += f"let {text[a:b]} = {nm}; "
-            log["rewrites"].append({"rule": "R2c", "fn": fs.path, "from": text[a:b], "to": nm})
+            ptxt_ = text[a:b]
+            if fs.opts.get("deref_pat") and re.match(r"&\s*\(", ptxt_):
+                # additive fn option `deref_pat` (unit xlsxwb; ad hoc, logged): Verus rejects reference patterns. A closure parameter pattern
+                # `&(x, _)` on an argument of type `&&(A, B)` binds what `(x, _)` binds under default binding modes (x: &A) -- the leading `&` is dropped
+                log["rewrites"].append({"rule": "adhoc", "fn": flabel, "from": ptxt_, "to": ptxt_[1:].lstrip(), "why": "reference pattern on a `&&(A, B)` closure argument: `(x, _)` binds the same references under default binding modes (Verus: ref patterns unsupported)"})
+                ptxt_ = ptxt_[1:].lstrip()
+            lets += f"let {ptxt_} = {nm}; "
+            log["rewrites"].append({"rule": "R2c", "fn": flabel, "from": text[a:b], "to": nm})
         spec = closure_specs.pop(ci, None)
         if spec:
-            ins(c(cl["body"][0]), " " + spec[0].strip() + " ", {"type": "contract", "fn": fs.path, "unit": unit, "part": f"closure {ci}", "tline": spec[1]}, prio=5)
+            ins(c(cl["body"][0]), " " + spec[0].strip() + " ", {"type": "contract", "fn": flabel, "unit": unit, "part": f"closure {ci}", "tline": spec[1]}, prio=5)
         if lets or (spec and not cl["block"]):
             ins(c(cl["body"][0]), "{ " + lets, ro, prio=4)
             ins(c(cl["body"][1]), " }", ro, prio=-4)
@@ -352,12 +360,12 @@ def render_fn(fs, out, unit, log):
     if fs.opts.get("external_body"):
         # body not verified by Verus (declared; counted as trusted unless a Kani harness discharges the contract)
         log["trusted"].append(f"external_body on real fn {fs.path}: contract assumed in Verus" + (f" (discharged by Kani harness {fs.opts['by']})" if fs.opts.get("by") else ""))
-        ins(0, "#[verifier::external_body]\n", {"type": "annot", "fn": fs.path, "unit": unit, "what": "external_body"}, prio=5)
+        ins(0, "#[verifier::external_body]\n", {"type": "annot", "fn": flabel, "unit": unit, "what": "external_body"}, prio=5)
 
     loops = rec.get("loops", [])
     body_ins = "".join(r2_lets)
     for kind, arg, ptxt, tline in fs.parts:
-        origin = {"type": "contract", "fn": fs.path, "unit": unit, "part": f"{kind} {arg}".strip(), "tline": tline}
+        origin = {"type": "contract", "fn": flabel, "unit": unit, "part": f"{kind} {arg}".strip(), "tline": tline}
         if kind == "sig":
             ins(body_s, "\n" + ptxt, origin, prio=1)
         elif kind == "body":
@@ -372,7 +380,7 @@ def render_fn(fs, out, unit, log):
             if len(a) > 1:
                 if lp["kind"] != "for":
                     raise LostAnchor(f"fn {fs.path}: loop {k} is not a for loop")
-                ins(c(lp["expr"][0]), a[1] + ": ", {"type": "annot", "fn": fs.path, "unit": unit, "what": "ghost-iter"})
+                ins(c(lp["expr"][0]), a[1] + ": ", {"type": "annot", "fn": flabel, "unit": unit, "what": "ghost-iter"})
             ins(c(lp["body_start"]), "\n" + ptxt, origin, prio=1)
         elif kind == "r6":
             k = int(arg.split()[0])
@@ -389,17 +397,17 @@ def render_fn(fs, out, unit, log):
             if mo:
                 if not re.fullmatch(mo.group(1), expr, re.S):
                     raise LostAnchor(f"fn {fs.path}: r6 {k}: iterator expression `{norm_ws(expr)}` does not match /{mo.group(1)}/")
-                log["rewrites"].append({"rule": "adhoc", "fn": fs.path, "from": expr, "to": ptxt.strip(), "why": mo.group(2)})
+                log["rewrites"].append({"rule": "adhoc", "fn": flabel, "from": expr, "to": ptxt.strip(), "why": mo.group(2)})
                 expr = ptxt.strip()
             label = f"'{lp['label']}: " if lp.get("label") else ""
             itn = f"__it{k}"
-            ro = {"type": "rewrite", "rule": "R6", "fn": fs.path, "unit": unit}
+            ro = {"type": "rewrite", "rule": "R6", "fn": flabel, "unit": unit}
             # `[label:] for PAT in EXPR ` -> `{ let mut it = IntoIterator::into_iter(EXPR); [label:] loop `
             ins(ls, f"{{ let mut {itn} = IntoIterator::into_iter({expr}); {label}loop ", ro, dl=lb - ls)
             # invariants for this loop come from a `loop K` part (inserted at body_start with prio=1, i.e. after this)
             ins(lb, f"{{ match {itn}.next() {{ None => break, Some({pat}) => ", ro, prio=0)  # after the `loop K` text (prio=1): `loop invariant.. {{ match ..`
             ins(le, " } } }", ro, prio=-2)
-            log["rewrites"].append({"rule": "R6", "fn": fs.path, "loop": k, "iter": expr})
+            log["rewrites"].append({"rule": "R6", "fn": flabel, "loop": k, "iter": expr})
         elif kind == "closure":
             pass  # handled below
         elif kind in ("before", "after", "replace", "replace?"):
@@ -411,7 +419,7 @@ def render_fn(fs, out, unit, log):
             # `replace?`: optional rewrite -- if the construct it works around is no longer in the text, the text is taken as is
             # (so that an edit removing the construct is *verified*, not reported as a lost anchor)
             if kind == "replace?" and len(ms) == 0:
-                log["rewrites"].append({"rule": "adhoc-optional", "fn": fs.path, "from": None, "to": ptxt.strip(), "why": "not applied: construct absent; " + m.group(4)})
+                log["rewrites"].append({"rule": "adhoc-optional", "fn": flabel, "from": None, "to": ptxt.strip(), "why": "not applied: construct absent; " + m.group(4)})
                 continue
             # `/re/` must match exactly once; `/re/#KofN` must match exactly N times and selects the K-th (0-based)
             want = int(m.group(3)) if m.group(3) else 1
@@ -425,12 +433,12 @@ def render_fn(fs, out, unit, log):
             else:
                 # additive: `\g<N>` in the replacement text re-inserts the verbatim text of capture group N (so a rewrite can wrap real code)
                 rep = mm.expand(ptxt.rstrip("\n")) if "\\g<" in ptxt else ptxt.rstrip("\n")
-                ins(mm.start(), rep, {"type": "rewrite", "rule": "adhoc", "fn": fs.path, "unit": unit, "tline": tline}, dl=mm.end() - mm.start())
-                log["rewrites"].append({"rule": "adhoc", "fn": fs.path, "from": mm.group(0), "to": rep.strip(), "why": m.group(4)})
+                ins(mm.start(), rep, {"type": "rewrite", "rule": "adhoc", "fn": flabel, "unit": unit, "tline": tline}, dl=mm.end() - mm.start())
+                log["rewrites"].append({"rule": "adhoc", "fn": flabel, "from": mm.group(0), "to": rep.strip(), "why": m.group(4)})
         else:
             raise SystemExit(f"template line {tline}: unknown fn sub-directive {kind}")
     if body_ins:
-        ins(body_s + 1, body_ins, {"type": "rewrite", "rule": "R2", "fn": fs.path, "unit": unit}, prio=3)
+        ins(body_s + 1, body_ins, {"type": "rewrite", "rule": "R2", "fn": flabel, "unit": unit}, prio=3)
 
     # R1 logging statements, R7 assert_eq (generic, by pattern, inside body only)
     for m in LOG_RE.finditer(text, body_s, body_e):
@@ -440,10 +448,10 @@ def render_fn(fs, out, unit, log):
             end += 1
         if end < len(text) and text[end] == ";":
             end += 1
-            ins(m.start(), "/* R1: log stmt dropped */", {"type": "rewrite", "rule": "R1", "fn": fs.path, "unit": unit}, dl=end - m.start())
+            ins(m.start(), "/* R1: log stmt dropped */", {"type": "rewrite", "rule": "R1", "fn": flabel, "unit": unit}, dl=end - m.start())
         else:
-            ins(m.start(), "()", {"type": "rewrite", "rule": "R1", "fn": fs.path, "unit": unit}, dl=pe - m.start())
-        log["rewrites"].append({"rule": "R1", "fn": fs.path, "from": text[m.start() : end]})
+            ins(m.start(), "()", {"type": "rewrite", "rule": "R1", "fn": flabel, "unit": unit}, dl=pe - m.start())
+        log["rewrites"].append({"rule": "R1", "fn": flabel, "from": text[m.start() : end]})
     for m in ASSERT_EQ_RE.finditer(text, body_s, body_e):
         pe = balanced_end(text, m.end() - 1)
         inner = text[m.end() : pe - 1]
@@ -456,8 +464,8 @@ def render_fn(fs, out, unit, log):
         else:
             op = "==" if mac.endswith("_eq") else "!="
             new = f"assert!(({parts[0].strip()}) {op} ({parts[1].strip()}))"
-        ins(m.start(), new, {"type": "src", "file": relfile, "fn": fs.path, "unit": unit, "rule": "R7"}, dl=pe - m.start())
-        log["rewrites"].append({"rule": "R7", "fn": fs.path, "from": text[m.start() : pe], "to": new})
+        ins(m.start(), new, {"type": "src", "file": relfile, "fn": flabel, "unit": unit, "rule": "R7"}, dl=pe - m.start())
+        log["rewrites"].append({"rule": "R7", "fn": flabel, "from": text[m.start() : pe], "to": new})
     # R7b: assert!(cond, "msg" ...) -> assert!(cond)
     for m in re.finditer(r"(?<![\w:!])assert!\s*\(", text[body_s:body_e]):
         st = body_s + m.start()
@@ -466,14 +474,14 @@ def render_fn(fs, out, unit, log):
         parts = split_top_commas(inner)
         if len(parts) > 1:
             new = f"assert!({parts[0].strip()})"
-            ins(st, new, {"type": "src", "file": relfile, "fn": fs.path, "unit": unit, "rule": "R7"}, dl=pe - st)
-            log["rewrites"].append({"rule": "R7", "fn": fs.path, "from": text[st:pe], "to": new})
+            ins(st, new, {"type": "src", "file": relfile, "fn": flabel, "unit": unit, "rule": "R7"}, dl=pe - st)
+            log["rewrites"].append({"rule": "R7", "fn": flabel, "from": text[st:pe], "to": new})
     if fs.opts.get("r4"):
         for m in re.finditer(r"(?<![\w:!])format!\s*\(", text[body_s:body_e]):
             st = body_s + m.start()
             pe = balanced_end(text, body_s + m.end() - 1)
-            ins(st, "verif_opaque_string()", {"type": "rewrite", "rule": "R4", "fn": fs.path, "unit": unit}, dl=pe - st)
-            log["rewrites"].append({"rule": "R4", "fn": fs.path, "from": text[st:pe]})
+            ins(st, "verif_opaque_string()", {"type": "rewrite", "rule": "R4", "fn": flabel, "unit": unit}, dl=pe - st)
+            log["rewrites"].append({"rule": "R4", "fn": flabel, "from": text[st:pe]})
 
     # apply edits
     edits.sort(key=lambda e: (e[0], -e[4]))
@@ -493,7 +501,7 @@ def render_fn(fs, out, unit, log):
     log["functions"].append(
         {
             "file": relfile,
-            "item": fs.path,
+            "item": flabel,
             "sha256": fn_text_hash,
             "lines": [src[:s0].count(b"\n") + 1, src[:e0].count(b"\n") + 1],
             "entry": bool(fs.opts.get("entry")),
